@@ -1,9 +1,348 @@
 import PhreeqcVerif.Lemmas.Store
-/-! C14 — numbered reactants behave as a keyed store (preliminary). -/
+/-!
+C14 — numbered reactants behave as a keyed store under COPY/DELETE/SAVE/USE/MODIFY.
+
+`Model/Store.lean` is the store as coded (association lists for `std::map<int,T>`, the loops of `Rxn_copies`,
+`saver`, `copy_entities`, `delete_entities`, …). Here: the abstract spec `Kind → Int → Option Entry` (whose content
+projection is the property's `Kind → Int → Option Content`), the map-level meaning `specOp` of every store operation,
+and the refinement theorems. Every map mutation of the model goes through `St.exec`, i.e. through `applySOp`.
+-/
 namespace PhreeqcVerif.Store.C14
 open PhreeqcVerif.Store AMap
 
-theorem put_lookup (m : AMap) (n : Int) (e : Entry) (x : Int) :
-    find (m.put n e) x = if n = x then some { e with nUser := n } else find m x := find_put m n e x
+abbrev AStore := Kind → Int → Option Entry
+
+def upd (f : Int → Option Entry) (n : Int) (v : Option Entry) : Int → Option Entry :=
+  fun x => if n = x then v else f x
+
+/-- what each store operation means for the finite map number ↦ entry of its kind -/
+def specOp : SOp → (Int → Option Entry) → (Int → Option Entry)
+  | .put _ n e, f => upd f n (some { e with nUser := n })
+  | .setEnd _ n x, f => match f n with
+    | some e => upd f n (some { e with nUserEnd := x, nUser := n }) | none => f
+  | .setNewDef _ n b, f => match f n with
+    | some e => upd f n (some { e with newDef := b, nUser := n }) | none => f
+  | .modify _ n x tok, f => match f n with
+    | some e => upd f n (some { e with content := tok, nUserEnd := x, newDef := false, nUser := n }) | none => f
+  | .copy _ i j, f => match f i with
+    | some e => upd f j (some (renum e j)) | none => f
+  | .copies _ n hi, f => fanSpec f n hi
+  | .copyEach _ n hi, f => fanSpec f n hi
+  | .copyTo _ src ts, f => copyToSpec f src ts
+  | .erase _ n, f => upd f n none
+  | .clear _, _ => fun _ => none
+
+def specStep (a : AStore) (op : SOp) : AStore := fun k => if k = op.kind then specOp op (a k) else a k
+def specRun (a : AStore) (ops : List SOp) : AStore := ops.foldl specStep a
+
+theorem step_eq (a : AStore) (op : SOp) (k : Kind) (x : Int) :
+    specStep a op k x = if k = op.kind then specOp op (a k) x else a k x := by
+  unfold specStep; split <;> rfl
+
+/-- every store operation acts on lookups exactly as its map-level spec -/
+theorem onMap_spec (op : SOp) (m : AMap) : find (op.onMap m) = specOp op (find m) := by
+  funext x
+  cases op <;> simp only [SOp.onMap, specOp, upd]
+  case put => exact find_put ..
+  case setEnd n hi => cases h : find m n <;> simp [find_put, upd]
+  case setNewDef n b => cases h : find m n <;> simp [find_put, upd]
+  case modify n hi tok => cases h : find m n <;> simp [find_put, upd]
+  case copy i j => rw [find_rxnCopy]; cases h : find m i <;> rfl
+  case copies => exact find_rxnCopies ..
+  case copyEach => exact find_copyEach ..
+  case copyTo => exact find_copyTo ..
+  case erase => exact find_erase ..
+  case clear => rfl
+
+theorem abs_applySOp (ms : Maps) (op : SOp) : abs (applySOp ms op) = specStep (abs ms) op := by
+  funext k
+  simp only [abs, applySOp, Maps.set, specStep]
+  show find ((KTab.set ms op.kind (op.onMap (ms.get op.kind))).get k) = _
+  rw [KTab.get_set]
+  split
+  · rename_i h; subst h; exact onMap_spec op _
+  · rfl
+
+/-- **refines_map**: any sequence of store operations acts on the abstract map as the composition of their specs -/
+theorem refines_map (ops : List SOp) (ms : Maps) : abs (applySOps ms ops) = specRun (abs ms) ops := by
+  induction ops generalizing ms with
+  | nil => rfl
+  | cons op t ih =>
+    simp only [applySOps, specRun, List.foldl_cons]
+    have := ih (applySOp ms op)
+    simp only [applySOps, specRun] at this
+    rw [this, abs_applySOp]
+
+/-- the property's view (kind, number) ↦ content follows -/
+theorem refines_content (ops : List SOp) (ms : Maps) (k : Kind) (n : Int) :
+    contentOf (applySOps ms ops) k n = (specRun (abs ms) ops k n).map (·.content) := by
+  have := congrFun (congrFun (refines_map ops ms) k) n
+  simp only [abs] at this
+  simp [contentOf, this]
+
+/-! ### independence across kinds -/
+
+theorem other_kinds_untouched (ms : Maps) (op : SOp) (k : Kind) (h : k ≠ op.kind) :
+    (applySOp ms op).get k = ms.get k := by
+  simp only [applySOp, Maps.set]
+  rw [KTab.get_set, if_neg h]
+
+theorem KTab.ext' {α} (t u : KTab α) (h : ∀ k, t.get k = u.get k) : t = u := by
+  cases t; cases u
+  have h1 := h .solution; have h2 := h .pp; have h3 := h .exchange; have h4 := h .surface; have h5 := h .ss
+  have h6 := h .gas; have h7 := h .kinetics; have h8 := h .mix; have h9 := h .reaction; have h10 := h .temperature
+  have h11 := h .pressure
+  simp only [KTab.get] at *
+  simp [*]
+
+/-- operations on different kinds commute -/
+theorem ops_commute_across_kinds (ms : Maps) (a b : SOp) (h : a.kind ≠ b.kind) :
+    applySOp (applySOp ms a) b = applySOp (applySOp ms b) a := by
+  apply KTab.ext'
+  intro k
+  simp only [applySOp, Maps.set, KTab.get_set]
+  by_cases hb : k = b.kind
+  · subst hb
+    have : ¬ b.kind = a.kind := fun e => h e.symm
+    simp [this]
+  · by_cases ha : k = a.kind
+    · subst ha; simp [h]
+    · simp [ha, hb]
+
+/-! ### DELETE -/
+
+/-- **delete_exact**: DELETE of numbers `nums` of kind `k` removes exactly those entries -/
+theorem delete_exact (k : Kind) (nums : List Int) (ms : Maps) (k' : Kind) (x : Int) :
+    abs (applySOps ms (nums.map (SOp.erase k))) k' x = if k' = k ∧ x ∈ nums then none else abs ms k' x := by
+  induction nums generalizing ms with
+  | nil => simp [applySOps]
+  | cons n t ih =>
+    simp only [List.map_cons, applySOps, List.foldl_cons]
+    have := ih (applySOp ms (.erase k n))
+    simp only [applySOps] at this
+    rw [this, abs_applySOp]
+    by_cases hk : k' = k
+    · subst hk
+      simp only [step_eq, SOp.kind, ↓reduceIte, specOp, upd]
+      by_cases hx : n = x
+      · subst hx; simp
+      · have : ¬ x = n := fun e => hx e.symm
+        simp [hx, this]
+    · simp [step_eq, SOp.kind, hk]
+
+/-- DELETE of a kind without numbers removes every entry of that kind and nothing else -/
+theorem delete_all_exact (k : Kind) (ms : Maps) (k' : Kind) (x : Int) :
+    abs (applySOp ms (.clear k)) k' x = if k' = k then none else abs ms k' x := by
+  rw [abs_applySOp]
+  by_cases hk : k' = k
+  · subst hk; simp only [step_eq, SOp.kind, ↓reduceIte, specOp]
+  · simp only [step_eq, SOp.kind, hk, ↓reduceIte]
+
+/-! ### COPY -/
+
+/-- **copy_content_eq** (signed loop variable): after `COPY k src a-b` every number of a…b except `src` holds an
+entry equal to the source's except for its number; the source and everything else is unchanged -/
+theorem copy_content_eq (ms : Maps) (k : Kind) (src a b : Int) (e : Entry) (h : abs ms k src = some e) :
+    ∃ ts, copyTargets false a b = some ts ∧ ∀ k' x, abs (applySOp ms (.copyTo k src ts)) k' x =
+      if k' = k ∧ a ≤ x ∧ x ≤ b ∧ x ≠ src then some (renum e x) else abs ms k' x := by
+  obtain ⟨ts, hts, _⟩ := mem_copyTargets_int a b 0
+  refine ⟨ts, hts, ?_⟩
+  intro k' x
+  obtain ⟨ts', hts', hmem⟩ := mem_copyTargets_int a b x
+  rw [hts] at hts'; cases hts'
+  rw [abs_applySOp]
+  by_cases hk : k' = k
+  · subst hk
+    simp only [step_eq, SOp.kind, ↓reduceIte, specOp, copyToSpec, h, hmem, true_and]
+    by_cases hc : (a ≤ x ∧ x ≤ b) ∧ x ≠ src
+    · rw [if_pos hc, if_pos ⟨hc.1.1, hc.1.2, hc.2⟩]
+    · rw [if_neg hc, if_neg (fun hh => hc ⟨⟨hh.1, hh.2.1⟩, hh.2.2⟩)]
+  · simp [step_eq, SOp.kind, hk]
+
+/-- the copies carry the source's content, and a later write to a copy does not reach the source (no aliasing) -/
+theorem copy_then_write_independent (ms : Maps) (k : Kind) (src j : Int) (e e' : Entry) (h : abs ms k src = some e)
+    (hj : j ≠ src) :
+    abs (applySOps ms [.copy k src j, .put k j e']) k src = some e ∧
+    (abs (applySOp ms (.copy k src j)) k j).map (·.content) = some e.content := by
+  constructor
+  · rw [refines_map]
+    simp only [specRun, List.foldl, step_eq, SOp.kind, ↓reduceIte, specOp, upd, h, hj]
+  · rw [abs_applySOp]
+    simp only [step_eq, SOp.kind, ↓reduceIte, specOp, h, upd, Option.map, renum]
+
+/-- unsigned (`size_t`) loop variable: the same result **provided** the range lies in 0 … 2^31-1 -/
+theorem copy_content_eq_partial (a b x : Int) (ha : 0 ≤ a) (ha' : a < 2147483648) (hb0 : 0 ≤ b) (hb : b < 2147483648) :
+    ∃ ts, copyTargets true a b = some ts ∧ (x ∈ ts ↔ a ≤ x ∧ x ≤ b) := by
+  unfold copyTargets
+  simp only [if_true]
+  by_cases hlt : b < a
+  · have h1 : toU64 b < toU64 a := by unfold toU64 two64; omega
+    refine ⟨[], by simp [h1], ?_⟩
+    simp; omega
+  · have hau : toU64 a = a.toNat := by unfold toU64 two64; omega
+    have hb' : toU64 b = b.toNat := by unfold toU64 two64; omega
+    have h1 : ¬ toU64 b < toU64 a := by omega
+    have h2 : ¬ toU64 b = two64 - 1 := by unfold two64; omega
+    have h3 : ¬ two32 ≤ toU64 b - toU64 a := by unfold two32; omega
+    refine ⟨_, by rw [if_neg h1, if_neg h2, if_neg h3], ?_⟩
+    simp only [List.mem_map, List.mem_range]
+    constructor
+    · rintro ⟨t, ht, rfl⟩
+      have : toI32 (toU64 a + t) = a + t := by unfold toI32 two32; simp only; split <;> omega
+      omega
+    · intro hx
+      refine ⟨(x - a).toNat, by omega, ?_⟩
+      unfold toI32 two32; simp only; split <;> omega
+
+/-- … and the full statement is false of the `size_t` loop: `COPY k src -2-3` visits no number at all, and
+`COPY k src -3--1` never ends -/
+theorem copy_unsigned_negative_start_copies_nothing : copyTargets true (-2) 3 = some [] := by decide
+theorem copy_unsigned_to_minus_one_runs_away : copyTargets true (-3) (-1) = none := by decide
+theorem copy_signed_negative_start : copyTargets false (-2) 3 = some [-2, -1, 0, 1, 2, 3] := by decide
+
+/-! ### ranges: definitions and SAVE -/
+
+/-- **range_define** / **save_overwrites**: storing an entry under `n` and fanning it out over `n … hi` (by the
+chained `Rxn_copies` or by the `Rxn_copy` loop) leaves every number of the range with that content, numbered by
+itself — whatever these numbers held before — and changes no other number and no other kind -/
+theorem range_define (chain : Bool) (ms : Maps) (k : Kind) (n hi : Int) (e : Entry) (k' : Kind) (x : Int) :
+    abs (applySOps ms [.put k n e, if chain then .copies k n hi else .copyEach k n hi]) k' x =
+      if k' = k ∧ n ≤ x ∧ (x ≤ hi ∨ x = n) then
+        (if x = n then some { e with nUser := n } else some (renum e x))
+      else abs ms k' x := by
+  rw [refines_map]
+  cases chain <;> simp only [Bool.false_eq_true, if_false, if_true, specRun, List.foldl]
+  all_goals
+    by_cases hk : k' = k
+    · subst hk
+      simp only [step_eq, SOp.kind, ↓reduceIte, fanSpec, specOp, upd, true_and]
+      by_cases hxn : x = n
+      · subst hxn
+        rw [if_neg (by omega), if_pos rfl, if_pos (by omega), if_pos rfl]
+      · have hnx : ¬ n = x := fun h => hxn h.symm
+        by_cases hr : n < x ∧ x ≤ hi
+        · rw [if_pos hr, if_pos (by omega), if_neg hxn]; rfl
+        · rw [if_neg hr, if_neg hnx, if_neg (by omega)]
+    · simp [step_eq, SOp.kind, hk]
+
+theorem save_overwrites (chain : Bool) (ms : Maps) (k : Kind) (n hi : Int) (tok : Nat) (x : Int)
+    (hx : n ≤ x ∧ x ≤ hi) :
+    contentOf (applySOps ms [.put k n (calcEntry tok n), if chain then .copies k n hi else .copyEach k n hi]) k x
+      = some tok := by
+  have := range_define chain ms k n hi (calcEntry tok n) k x
+  simp only [abs] at this
+  simp only [contentOf, this]
+  simp only [true_and]
+  rw [if_pos ⟨hx.1, Or.inl hx.2⟩]
+  split <;> rfl
+
+/-! ### *_MODIFY and USE -/
+
+/-- **modify_local**: `*_MODIFY k n` touches only entry (k, n), and of it only content, range end and the new_def flag -/
+theorem modify_local (ms : Maps) (k : Kind) (n hi : Int) (tok : Nat) (k' : Kind) (x : Int) :
+    abs (applySOp ms (.modify k n hi tok)) k' x =
+      if k' = k ∧ x = n then
+        (abs ms k n).map fun e => { e with content := tok, nUserEnd := hi, newDef := false, nUser := n }
+      else abs ms k' x := by
+  rw [abs_applySOp]
+  by_cases hk : k' = k
+  · subst hk
+    simp only [step_eq, SOp.kind, ↓reduceIte, specOp, true_and]
+    cases h : abs ms k' n with
+    | none =>
+      simp only [Option.map]
+      split
+      · rename_i hx; subst hx; exact h
+      · rfl
+    | some e =>
+      simp only [Option.map, upd]
+      by_cases hx : x = n
+      · subst hx; simp
+      · have : ¬ n = x := fun e => hx e.symm
+        simp [hx, this]
+  · simp [step_eq, SOp.kind, hk]
+
+/-- **use_reads_only**: `copy_use(-2)` (what USE / RUN_CELLS do before a calculation) writes scratch number −2 only -/
+theorem use_reads_only (ms : Maps) (k : Kind) (i : Int) (k' : Kind) (x : Int) (hx : x ≠ -2) :
+    abs (applySOp ms (.copy k i (-2))) k' x = abs ms k' x := by
+  rw [abs_applySOp]
+  by_cases hk : k' = k
+  · subst hk
+    simp only [step_eq, SOp.kind, ↓reduceIte, specOp]
+    cases h : abs ms k' i with
+    | none => rfl
+    | some e =>
+      simp only [upd]
+      rw [if_neg (fun e => hx e.symm)]
+  · simp only [step_eq, SOp.kind, hk, ↓reduceIte]
+
+/-! ### representation: the concrete store carries nothing beyond the abstract map -/
+
+def GoodStore (ms : Maps) : Prop := ∀ k, Good (ms.get k)
+
+theorem good_init : GoodStore (St.init true).maps := by
+  intro k; simp only [St.init, KTab.get_const]; exact good_nil
+
+theorem good_applySOps (ops : List SOp) (ms : Maps) (h : GoodStore ms) : GoodStore (applySOps ms ops) := by
+  induction ops generalizing ms with
+  | nil => exact h
+  | cons op t ih =>
+    simp only [applySOps, List.foldl_cons]
+    apply ih
+    intro k
+    simp only [applySOp, Maps.set]
+    rw [KTab.get_set]
+    split
+    · exact good_onMap op (h _)
+    · exact h k
+
+/-- two well-formed stores with the same abstract view are the same store -/
+theorem abs_injective (ms₁ ms₂ : Maps) (h₁ : GoodStore ms₁) (h₂ : GoodStore ms₂) (h : abs ms₁ = abs ms₂) :
+    ms₁ = ms₂ := by
+  apply KTab.ext'
+  intro k
+  exact good_ext (h₁ k).1 (h₂ k).1 (fun x => congrFun (congrFun h k) x)
+
+/-- DUMP prints the key: in a well-formed store every entry's n_user is the number it is filed under, and a
+(kind, number) occurs at most once and in ascending order -/
+theorem dump_number_is_key (ms : Maps) (h : GoodStore ms) (k : Kind) (p : Int × Entry) (hp : p ∈ ms.get k) :
+    p.2.nUser = p.1 := (h k).2 p hp
+
+/-! ### component list -/
+
+/-- **components_superset**: every element of every entry of a visited kind is in the component list -/
+theorem components_superset (elemsOf : Nat → List String) (ms : Maps) (k : Kind) (hk : k ∈ componentKinds)
+    (n : Int) (e : Entry) (h : abs ms k n = some e) (el : String) (hel : el ∈ elemsOf e.content) :
+    el ∈ components elemsOf ms := by
+  simp only [components, List.mem_flatMap]
+  exact ⟨k, hk, (n, e), find_mem h, hel⟩
+
+/-- … in particular after any history of store operations -/
+theorem components_superset_after (elemsOf : Nat → List String) (ms : Maps) (ops : List SOp) (k : Kind)
+    (hk : k ∈ componentKinds) (n : Int) (e : Entry) (h : specRun (abs ms) ops k n = some e) (el : String)
+    (hel : el ∈ elemsOf e.content) : el ∈ components elemsOf (applySOps ms ops) := by
+  apply components_superset elemsOf _ k hk n e _ el hel
+  rw [refines_map]; exact h
+
+/-! ### non-vacuity: concrete histories -/
+
+def e0 (tok : Nat) (n hi : Int) : Entry := ⟨tok, n, hi, true, none, []⟩
+def empty : Maps := KTab.const []
+
+/-- SOLUTION 1-3 (content 7), COPY solution 2 5-6, DELETE solution 2, SOLUTION_MODIFY 5 (content 9) -/
+def hist1 : List SOp :=
+  [.put .solution 1 (e0 7 1 3), .copies .solution 1 3, .copyTo .solution 2 [5, 6], .erase .solution 2,
+   .modify .solution 5 5 9, .put .pp 1 (e0 8 1 1)]
+
+example : (visible (applySOps empty hist1)) =
+    [(.solution, 1, 7), (.solution, 3, 7), (.solution, 5, 9), (.solution, 6, 7), (.pp, 1, 8)] := by decide
+example : contentOf (applySOps empty hist1) .solution 2 = none := by decide
+example : specRun (abs empty) hist1 .solution 6 = some (renum (e0 7 1 3) 6) := by decide
+/-- overwriting: a range saved over existing entries replaces all of them (the seeded `insert` variant would not) -/
+example : visible (applySOps empty [.put .pp 2 (e0 1 2 2), .put .pp 3 (e0 2 3 3), .put .pp 1 (calcEntry 5 1),
+    .copies .pp 1 3]) = [(.pp, 1, 5), (.pp, 2, 5), (.pp, 3, 5)] := by decide
+example : components (fun t => if t = 7 then ["Na", "Cl"] else ["Ca"]) (applySOps empty hist1) =
+    ["Na", "Cl", "Na", "Cl", "Ca", "Na", "Cl", "Ca"] := by decide
+example : GoodStore (applySOps empty hist1) := good_applySOps _ _ (by intro k; simp only [empty, KTab.get_const]; exact good_nil)
 
 end PhreeqcVerif.Store.C14
